@@ -14,7 +14,7 @@ META = dict(
     text="each execution replays M1..M5 of the real generators against a reference accessory and then injects one member "
     "of the adversary alphabet at M2, M4 or M6; a reference acceptor classifies the M6 (authentic iff it opens under the "
     "exchange key and carries a valid signature by the key it presents over AccessoryX|id|key); forged must raise and return "
-    "nothing, honest must return self-consistent data and the reference accessory must have accepted M3 and M5 Plus, through the public discovery API of each transport (IpDiscovery / BleDiscovery / CoAPDiscovery on fake transports): every bounded history of {start, finish(right code), finish(wrong code), link loss at each transport operation of an attempt, restart} against a reference pair-setup service; the conformant accessory's verdict log is the oracle (an M3 built with the right code in a live exchange is accepted, what is returned was accepted and registered). Also: two / three pairings in one process over all transport pairs (earlier records re-examined afterwards); the accessory factory-reset and paired again through the same discovery object. A proof the reference accessory accepts for a code other than the typed one is a violation (state shared between attempts).",
+    "nothing, honest must return self-consistent data and the reference accessory must have accepted M3 and M5 Plus, through the public discovery API of each transport (IpDiscovery / BleDiscovery / CoAPDiscovery on fake transports): every bounded history of {start, finish(right code), finish(wrong code), link loss at each transport operation of an attempt, restart} against a reference pair-setup service; the conformant accessory's verdict log is the oracle (an M3 built with the right code in a live exchange is accepted, what is returned was accepted and registered). Also: two / three pairings in one process over all transport pairs (earlier records re-examined afterwards); the accessory factory-reset and paired again through the same discovery object. A proof the reference accessory accepts for a code other than the typed one is a violation (state shared between attempts). Also an M4 with a trailing 900-byte MFi item cut 1..940 bytes short.",
     note="SRP/Ed25519/ChaCha20-Poly1305 strength outside the alphabet is assumed; one setup code/identity per tier row",
     design_ref="DESIGN.md §4 C03",
     debug_pass="thorough",
